@@ -225,13 +225,14 @@ def mirrorable (a : FArg) : Bool := !a.x.inf && a.x.exp.natAbs ≤ 20000
     the base of `powf` outside base 2 — the digit count of `2^s` (`FBig::from(IBig::ONE << s)` carries it as its
     precision and `Context::max` hands it on to the whole series), i.e. about `|log_B x|`.  Every case with
     `eff·⌊log2 B⌋ ≤ 1700` is mirrored (all precisions up to 1024 in bases 2 and 3, up to 566 in base 10, 340 in base 36),
-    one case in eight (chosen by the operand's significand, so reproducibly) up to `eff·⌊log2 B⌋ ≤ 5300` (p = 1024 in
-    every base), none above; cases not mirrored carry the annotation `+mirror-skip` and are decided by the
+    one case in eight (chosen by the operand's significand, so reproducibly) up to `eff·⌊log2 B⌋ ≤ 2600` (round 5: was
+    5300 — such a run takes 10–26 s of CPU and was reported as `hang` by the quick tier's 60 s watchdog on a machine
+    loaded five-fold), none above; cases not mirrored carry the annotation `+mirror-skip` and are decided by the
     certificate alone, as before -/
 def mirrorBudget (a : FArg) (p : Nat) (lnLike : Bool) : Bool :=
   let top := (a.x.exp + (digits a.base a.x.sig.natAbs : Int)).natAbs
   let eff := if lnLike ∧ a.base ≠ 2 then max p top else p
-  eff * a.base.log2 ≤ 1700 || (eff * a.base.log2 ≤ 5300 && a.x.sig.natAbs % 8 == 1)
+  eff * a.base.log2 ≤ 1700 || (eff * a.base.log2 ≤ 2600 && a.x.sig.natAbs % 8 == 1)
 
 /-- put `tag` into the key of the first annotation of an `ok` line (`… #cert-n=5` ↦ `… #cert-n+tag=5 …`) -/
 def annotate (s tag rest : String) : String :=
@@ -260,6 +261,63 @@ def mirrorCmp (name : String) (res : Except String (Dashu.Model.Float.Rounded Da
         if msg.startsWith "fuel" then annotate s "mirror-fuel" "" else drift (msg.replace " " "_")
     | _ => s
 
+/-- instrumented copy of `expLoop` (`Model/Trans/Series.lean`) for the per-case check of the hypotheses of
+    `Props/C11Series.expLoop_step_bound`: beside the last index it returns the largest `digits − digits_lb` over the
+    partial sums the stop test (`sum.sub_ulp()`) is applied to — the `cS` of hypothesis `DlbTight` as far as this run
+    uses it -/
+def expLoopSlack (E : Env) (r : Dashu.Model.Float.FBigM) :
+    Nat → Int → Dashu.Model.Float.FBigM → Dashu.Model.Float.FBigM → Nat → Nat → Option (Nat × Nat)
+  | 0, _, _, _, _, _ => none
+  | fuel + 1, factorial, pow, sum, k, acc =>
+    let acc := max acc (Dashu.Model.Float.digitsI E.B sum.repr.signif - E.est.dlb sum.repr.signif)
+    let factorial := factorial * (k : Int)
+    let pow := fMul E pow r
+    match fDiv E pow (fOfInt E.B factorial) with
+    | .error _ => none
+    | .ok increase =>
+      if reprAbsCmp E.B increase.repr (fSubUlp E sum) ≠ .gt then some (acc, k)
+      else expLoopSlack E r fuel factorial pow (fAddSub E sum increase 1) (k + 1) acc
+
+/-- per-case check of `Props/C11Series.expLoop_step_bound` on the scaled branch of `exp_internal`: the hypotheses
+    (`0 < r`, `r ≤ B^(−u)` with `u ≥ 1` read off the digit position of `r`, `r` held at a precision `w ≥ 1`,
+    `digits ≤ digits_lb + cS` on every partial sum) are evaluated on this case, and the conclusion (`k = 2` or
+    `u·(k−1) < w + cS + 1`) is compared with the index the mirrored loop ended at.  `none` = hypotheses not met
+    (unscaled `exp_m1` branch, `u = 0`); `some (true, …)` = bound holds; `some (false, …)` contradicts the theorem. -/
+def expBoundCheck (E : Env) (x : Dashu.Model.Float.FRepr) (minusOne : Bool) (a : Nat × Int × Nat × Dashu.Model.Float.FBigM)
+    (lastK : Nat) : Option (Bool × String) :=
+  if minusOne && E.est.belowInvBase x then none
+  else
+    let (_, _, n, r0) := a
+    let r := fShl r0 (-(n : Int))
+    -- the `w` of the theorem is the precision `r` is held at (`≥` the context's working precision: the remainder of
+    -- `div_rem_euclid` carries `Context::max` of the operand precisions, and `ln B` carries iacoth's guard digits)
+    let w := r.prec
+    let top : Int := r.repr.exp + (Dashu.Model.Float.digitsI E.B r.repr.signif : Int)
+    if r.repr.signif ≤ 0 ∨ top ≥ 0 ∨ w = 0 then none
+    else
+      let u := (-top).toNat
+      match expLoopSlack E r mirrorFuel 1 r (fAddSub E Dashu.Model.Float.FBigM.one r 1) 2 0 with
+      | none => none
+      | some (cS, k) =>
+        let txt := " u=" ++ toString u ++ " slack=" ++ toString cS ++ " kmax=" ++ toString ((w + cS) / u + 1)
+        some (k = lastK ∧ (k = 2 ∨ u * (k - 1) < w + cS + 1), txt)
+
+/-- the mirrored `exp_internal` (= `expBody`: `expReduce` then `expTail`) with the step-bound check -/
+def expMirror (E : Env) (p : Nat) (x : Dashu.Model.Float.FRepr) (minusOne : Bool) (claim : Option (List String))
+    (s : String) : String :=
+  match expReduce mirrorFuel E p x minusOne with
+  | .error e => mirrorCmp "exp_internal" (.error e) claim s
+  | .ok a =>
+    let res := expTail mirrorFuel E p x minusOne a
+    let out := mirrorCmp "exp_internal" res claim s
+    match res with
+    | .ok (_, tr) =>
+      (match expBoundCheck E x minusOne a tr.lastK with
+        | none => out
+        | some (true, txt) => annotate out "bound-ok" txt
+        | some (false, txt) => (out.splitOn " #").head! ++ " !model-spec-mismatch step-bound(Props/C11Series.expLoop_step_bound)" ++ txt)
+    | .error _ => out
+
 /-- does the entry reach the numerical body? -/
 def expEntryOrLn (fn : Fn) (a : FArg) (p : Nat) : Bool :=
   (match fn with
@@ -282,8 +340,8 @@ def unaryMirror (fn : Fn) (a : FArg) (p : Nat) (claim : Option (List String)) (s
     else
       let E := envOf a
       match fn with
-      | .exp => mirrorCmp "exp_internal" (expBody mirrorFuel E p x false) claim s
-      | .expm1 => mirrorCmp "exp_internal" (expBody mirrorFuel E p x true) claim s
+      | .exp => expMirror E p x false claim s
+      | .expm1 => expMirror E p x true claim s
       | .ln => mirrorCmp "ln_internal" (lnBody mirrorFuel E p x false) claim s
       | .ln1p => mirrorCmp "ln_internal" (lnBody mirrorFuel E p x true) claim s
 
@@ -384,7 +442,11 @@ def powi (a : FArg) (k : Int) (p : Nat) (claim : Option (List String)) : Option 
         if p ≠ 0 ∧ !claimShapeOk a.base p sig prec then
           some ("violation result-does-not-fit-context-precision " ++ text)
         else if !a.small then none
-        else if e.natAbs > 4000000 ∨ (a.val.num.natAbs.log2 + a.val.den.log2 + 2) * k.natAbs > 20000000 then
+        else
+        -- a base in {0, 1, −1}: the power depends on sign and parity of the exponent only
+        -- (`Props/C11Powi.unit_base_zpow_reduce`), so exponents of any size are decided exactly
+        let k := if (a.val = 0 ∨ a.val = 1 ∨ a.val = -1) ∧ k.natAbs ≥ 4 then unitExp k else k
+        if e.natAbs > 4000000 ∨ (a.val.num.natAbs.log2 + a.val.den.log2 + 2) * k.natAbs > 20000000 then
           -- the exact rational power is too large to write down: x^k = exp(k·ln x) for a positive base
           -- (`checkedPowiBig_sound`), compared after scaling by B^e
           if p = 0 ∨ a.val ≤ 0 then none
